@@ -5,6 +5,7 @@ var Registry = map[string]func(tier, replay string) int{
 	"C12": RunC12,
 	"C13": RunC13,
 	"C14": RunC14,
+	"C15": RunC15,
 }
 
 // Worker dispatches worker-subprocess modes (generation, scanning) used by the scratch pipeline.
